@@ -44,11 +44,14 @@ InL == Ls \cup {UndL, "zz"}
 InS == Ss \cup {None, "Zzzz"}
 InR == Rs \cup {None, "ZZ"}
 
-C07 == ph = 1 => \A l \in InL, s \in InS, r \in InR, fb \in BOOLEAN : LawsMax(T, l, s, r, fb)
-C08 == ph = 1 => \A l \in InL, s \in InS, r \in InR, fb \in BOOLEAN : LawsMin(T, l, s, r, fb)
+(* the laws hold under every subset of the optional fallbacks (proved for all  *)
+(* of them with TLAPS, LikelyProofs.tla); TLC checks a spread of six          *)
+LawCfgs == {FbNone, FbAll, {"uscript", "uregion", "bare"}, {"bare"}, {"uscript"}, {"bareAny", "ulangregion"}}
+C07 == ph = 1 => \A l \in InL, s \in InS, r \in InR, fb \in LawCfgs : LawsMax(T, l, s, r, fb)
+C08 == ph = 1 => \A l \in InL, s \in InS, r \in InR, fb \in LawCfgs : LawsMin(T, l, s, r, fb)
 (* (with the optional bare-"und" fallback an implementation could lengthen  *)
 (* "und" to "a-Q"; the law is stated for the cascade the property fixes)     *)
-C08Longer == ph = 1 => \A l \in InL, s \in InS, r \in InR : NeverLonger(T, l, s, r, FALSE)
+C08Longer == ph = 1 => \A l \in InL, s \in InS, r \in InR : NeverLonger(T, l, s, r, FbNone)
 
 (* every key maximizes to its value when values agree with their keys (C06) *)
 KeysMaximizeToValues ==
